@@ -262,7 +262,15 @@ pub fn iter_strategy(p: &Profile) -> BoxedStrategy<IterSpec> {
     };
     let slots = p.slots;
     let loose = prop_oneof![4 => Just(None), 1 => select(vec![Some(1u16), Some(7), Some(40), Some(1000)])];
-    (select(kinds), vec(text_strategy(p.max_text.min(40)), 0..=5), vec(0u8..slots, 0..=3), hint, panic_at, loose, fx_strategy(p))
+    // empty items: they count for size hints but add no bytes
+    let empties = prop_oneof![8 => Just(0usize), 2 => 1usize..=6, 1 => select(vec![17usize, 40, 100, 300])];
+    let items = (vec(text_strategy(p.max_text.min(40)), 0..=5), empties).prop_map(|(mut items, e)| {
+        for i in 0..e {
+            if i % 2 == 0 { items.insert(0, String::new()) } else { items.push(String::new()) }
+        }
+        items
+    });
+    (select(kinds), items, vec(0u8..slots, 0..=3), hint, panic_at, loose, fx_strategy(p))
         .prop_map(|(kind, items, slots, hint, panic_at, loose, fx)| {
             let loose = if hint.is_some() { None } else { loose };
             let slots = if kind == IterKind::LeanSlots { slots } else { vec![] };
